@@ -2524,7 +2524,7 @@ static void DecodeDO_DOR(Word Code) {
                                           + (Ord(AdrResult.Seg == SegYData) << 6)
                                           + (Code << 4);
                         }
-                    } else {
+                    } else if (AdrResult.Type != ModNone) {
                         CodeLen     = 2;
                         DAsmCode[0] = 0x064000 + (AdrResult.Mode << 8)
                                       + (Ord(AdrResult.Seg == SegYData) << 6)
@@ -2587,7 +2587,7 @@ static void DecodeREP(Word Code) {
                 DAsmCode[0] = 0x060020 + (AdrResult.Val << 8)
                               + (Ord(AdrResult.Seg == SegYData) << 6);
             }
-        } else {
+        } else if (AdrResult.Type != ModNone) {
             CodeLen     = 1 + AdrResult.Cnt;
             DAsmCode[1] = AdrResult.Val;
             DAsmCode[0] = 0x064020 + (AdrResult.Mode << 8)
